@@ -7,7 +7,9 @@ The model side instantiates `Ecal.Conc.parserSys true` (the parser as it is: a
 per-parse block-start counter, the grammar table never written) with `g` threads
 whose operation lists and whose interleaving are derived from the seed, runs the
 interleaving, and counts the threads whose result differs from the result of
-the same thread running alone. Result: that count (theorem `parse_reentrant`: 0).
+the same thread running alone. It also lets the threads draw instance ids from
+the atomically updated counter (`idSys true`) and counts duplicates.
+Result: `<mismatches> <duplicate ids>` (theorems `parse_reentrant`, `instance_ids_distinct`: 0 0).
 -/
 namespace Ecal.Drv.C13
 open Ecal.Drv Ecal.Conc
@@ -47,7 +49,11 @@ def runCase (payload : String) : String :=
   let fin := run (parserSys true) init sched
   let mism := (List.range g).filter fun t =>
     decide ((fin.locals t).out ≠ (alone (parserSys true) t (sched.count t) init.shared (init.locals t)).2.out)
-  toString mism.length ++ (if g ≥ 2 ∧ field fs "n" ≥ 10 then "\tnt=1" else "")
+  -- instance ids: the same threads draw ids from the atomically updated counter
+  let ifin := run (idSys true) ⟨fun _ => 0, fun t => { todo := 3 + (seed + t) % 5 }⟩ sched
+  let allIds := (List.range g).flatMap fun t => (ifin.locals t).ids
+  let dup := allIds.length - allIds.eraseDups.length
+  toString mism.length ++ " " ++ toString dup ++ (if g ≥ 2 ∧ field fs "n" ≥ 10 then "\tnt=1" else "")
 
 def run (_args : List String) : IO Unit := lineLoop runCase
 end Ecal.Drv.C13
